@@ -192,7 +192,8 @@ func (k *Keeper) SetTaskResultInfo(
 			)
 		}
 		// check parameters
-		if info.BlsSignature == nil {
+		// a zero-length signature is stored as (and read back as) nil, so reject it as well
+		if len(info.BlsSignature) == 0 {
 			return errorsmod.Wrap(
 				types.ErrParamNotEmptyError,
 				fmt.Sprintf("SetTaskResultInfo: invalid param BlsSignature is not be null (BlsSignature: %s)", info.BlsSignature),
